@@ -112,22 +112,49 @@ def observe(es, text):
     return [kind]
 
 
+_PRISTINE = {}       # (config, text) -> observation made in a process that never solved anything else
+
+
+def _pristine_one(key):
+    return key, observe(real_solver(key[0]), key[1])
+
+
+def pristine_table(keys):
+    """Each expression solved by a fresh instance in its OWN fresh process (forked from the parent, which
+    never solves anything): the reference that no earlier call of any kind can have influenced."""
+    import multiprocessing as mp
+    ctx = mp.get_context("fork")
+    with ctx.Pool(min(C.NCPU, 16), maxtasksperchild=1) as pool:
+        return dict(pool.map(_pristine_one, keys, chunksize=1))
+
+
 def replay_history(job):
     config, plan, outs = job
+    texts = [toks if isinstance(toks, str) else render_plain(toks) for toks in plan]
+    # what a fresh instance answers, taken BEFORE the history runs and in reverse order: a call that
+    # leaves something behind outside the instance (process-wide state) shows up as a difference too
+    before = [observe(real_solver(config), text) for text in reversed(texts)][::-1]
     es = real_solver(config)
     res = []
-    for k, toks in enumerate(plan):
-        text = render_plain(toks)
+    for k, text in enumerate(texts):
         got = observe(es, text)
         fresh = observe(real_solver(config), text)
-        if got != fresh:
-            return ("violation", {"config": config, "plan": plan, "call": k + 1, "text": text, "fresh": fresh, "reused": got})
+        ref = _PRISTINE.get((config, text), fresh)
+        if got != fresh or got != before[k] or got != ref:
+            return ("violation", {"config": config, "plan": plan, "call": k + 1, "text": text,
+                                  "fresh": fresh if got != fresh else (before[k] if got != before[k] else ref), "reused": got})
         res.append(got)
     # conformance with the spec's outcomes (drift only)
     for k, (got, o) in enumerate(zip(res, outs)):
         if (o == ["#err"]) != (got == ["err"]):
             return ("drift", {"config": config, "plan": plan, "call": k + 1, "spec": o, "code": got})
     return ("ok", None)
+
+
+# expressions at the edge of the arithmetic domain (log of zero, root of a negative number, division by zero ...):
+# a call that fails or warns there must not change what later calls return
+EDGE = ["log(2.5-2.5)", "2.5*log(0)", "log10(0)", "sqrt(0-4)", "1/sin(0)", "2.5/(2.5-2.5)", "tan(1)+2", "sqrt(4)", "1/0", "exp(1000)*0",
+        "log(0-1)", "2**0.5", "(0-8)**(1/3)"]
 
 
 def record_traces(config, plans):
@@ -240,6 +267,9 @@ def run(replay=None):
     for name, cf in CONFIGS.items():
         for p in random_plans(rnd, cf["alpha_t"] + ["b", "f1(", "f2(", ",", "-"], 2000 if t == "quick" else 20000, 6, 6):
             jobs.append((name, p, []))
+    _PRISTINE.update(pristine_table([("default", e) for e in EDGE]))
+    for _ in range(600 if t == "quick" else 6000):
+        jobs.append(("default", [rnd.choice(EDGE) for _ in range(rnd.randint(2, 4))], []))
     res = C.pmap(replay_history, jobs)
     nontrivial = set()
     for job, (st, det) in zip(jobs, res):
